@@ -23,6 +23,19 @@ func checkC07(c *Ctx, r *Report) {
 	c07R4(c, r)
 	c07R5(c, r)
 	c07RdataLexErr(c, r)
+	c07GenerateWidth(c, r)
+	// errors inside an included file name that file: the sub-parser is given the path that was opened
+	{
+		sub := newReport("tmp", r.Tier)
+		c06IncludeFile(c, sub)
+		for _, o := range sub.obls {
+			detail := o.Detail
+			if o.Status != stOK {
+				detail += " (and syntax errors inside the included file are reported under the wrong file name)"
+			}
+			r.add("C07.R5.error-position", "Next:$INCLUDE file", o.Status, o.Pos, detail)
+		}
+	}
 	r.note("observation (not a violation of C06/C07): the $GENERATE sub-parser does not inherit the include file system (fsys); an $INCLUDE produced by a $GENERATE template opens through os.Open even when an include FS was configured")
 }
 
